@@ -1,5 +1,5 @@
 ENGINES = [
-    {"name": "csym", "path": "vt/csym.py", "serves_properties": ["C01", "C02", "C03", "C13", "C14", "C17", "C18"],
+    {"name": "csym", "path": "vt/csym.py", "serves_properties": ["C01", "C02", "C03", "C10", "C13", "C14", "C17", "C18"],
      "kind_free_text": "symbolic interpreter of traits/ctraits.c over clang's JSON AST (regenerated from the current source on every run), "
                        "CPython API contracts in vt/capi.py, shared path condition with symx; memory-safety assertions on every path"},
     {"name": "symx", "path": "vt/symx.py", "serves_properties": ["C01", "C03", "C04", "C05", "C06", "C07", "C13", "C15", "C17", "C20"],
@@ -161,4 +161,17 @@ CHECKS["C14"] = dict(
     note="Part (ii): pickle and copy are C boundaries, so the solver contributes choice feasibility only (exhaustive bounded enumeration, "
          "labelled so). Two known findings (post_init nested listeners not re-attached on copies; ReadOnly singleton and cached_property "
          "definition objects not picklable by name). func_index termination: C18's table obligations.")
+CHECKS["C10"] = dict(
+    engine="csym+symx",
+    text="(A) First reads through has_traits_getattro -> getattr_trait -> default_value_for interpreted from the clang AST of ctraits.c (ghost "
+         "reference counts on) for 14 default kinds on real objects (constants, list/dict copies, List/Dict/Set objects, callable-and-args "
+         "Instance, _name_default method incl. the lazy-loader idiom that assigns the trait inside the method, constant and container-"
+         "bearing Tuple, Union with a container member, subclass-overridden defaults), with and without registered handlers: declared "
+         "default returned, stored as the very object returned, no handler reached, later reads identical, default method ran at most "
+         "once, container defaults fresh (not the template, not a sibling's). (B) Sibling isolation: bounded histories (k=2/3) of "
+         "operations on one instance incl. add_trait with a shared CTrait definition.",
+    design_ref="DESIGN.md section 4 C10", technique="symbolic interpretation of the C source (clang AST) on real objects; bounded exploration for isolation histories",
+    note="All objects are heap objects: the solver contributes choice feasibility only (exhaustive bounded enumeration, labelled so in the "
+         "evidence); what the family adds is the interpreted C path with reference-count and memory-safety assertions. Outside: defaults of "
+         "Array/Date traits, threads.")
 NOT_APPLICABLE = {p: NOT_BUILT for p in ["C%02d" % i for i in range(1, 21)]}
